@@ -354,6 +354,20 @@ class MasterSim(object):
         self._last_alloc_name = '_default/%s' % key
         return '_default', 0, 1
 
+    def reference_allocation(self, alloc_name):
+        """Declared parameters of an allocation (path joined by '/') as the
+        master last loaded them; the default allocations have none."""
+        for rec in self.alloc_loaded or []:
+            if '/'.join(re.split('[/:]', rec['name'])) == alloc_name:
+                reserved = ref_vector(rec)
+                return {
+                    'reserved': reserved if any(reserved) else None,
+                    'rank': rec['rank'],
+                    'adj': rec.get('rank_adjustment') or 0,
+                    'maxutil': rec.get('max_utilization'),
+                }
+        return {'reserved': None, 'rank': 100, 'adj': 0, 'maxutil': None}
+
     def reference_assignment(self, name):
         """(allocation path, priority) the loader must give the instance."""
         _label, _traits, prio = self.assignment_of(name)
@@ -698,6 +712,23 @@ class MasterSim(object):
             cpu=spell_cpu(cap[1], style),
             disk=spell_mb(cap[2] * self.unit, style + 1))
         self.server_records[name]['cap'] = list(cap)
+
+    def op_shave(self, idx, dim, delta):
+        """A tiny downward resize of one dimension (a few MB / cpu units off
+        whatever is declared now), announced like any other resize."""
+        name = self._pick_loaded(idx)
+        if name is None or self.tree.nodes.get(z.path.server(name)) is None:
+            return
+        record = zkutils.get_default(self.admin, z.path.server(name)) or {}
+        cur = ref_vector(record)
+        if cur[dim % 3] - delta < 0:
+            return
+        cur[dim % 3] -= delta
+        self.tick()
+        masterapi.update_server_capacity(
+            self.admin, name, memory='%dM' % cur[0], cpu='%d%%' % cur[1],
+            disk='%dM' % cur[2])
+        self.count('shaved')
 
     def op_repart(self, idx, part):
         name = self._pick_server(idx)
